@@ -80,6 +80,11 @@ func Ask(ctx context.Context, to *PID, message any, timeout time.Duration) (resp
 		err = errors.Join(ctx.Err(), gerrors.ErrRequestTimeout)
 		to.handleReceivedErrorWithMessage(noSender, message, err)
 		timers.Put(timer)
+		if !receiveContext.responseClosed.CompareAndSwap(false, true) {
+			// The responder already claimed the reply slot and may still be
+			// sending on the channel: it must not be handed to a later Ask.
+			return nil, err
+		}
 		receiveContext.responseClosed.Store(true)
 		putResponseChannel(responseCh)
 		return nil, err
@@ -87,6 +92,11 @@ func Ask(ctx context.Context, to *PID, message any, timeout time.Duration) (resp
 		err = gerrors.ErrRequestTimeout
 		to.handleReceivedErrorWithMessage(noSender, message, err)
 		timers.Put(timer)
+		if !receiveContext.responseClosed.CompareAndSwap(false, true) {
+			// The responder already claimed the reply slot and may still be
+			// sending on the channel: it must not be handed to a later Ask.
+			return nil, err
+		}
 		receiveContext.responseClosed.Store(true)
 		putResponseChannel(responseCh)
 		return
